@@ -158,8 +158,7 @@ theorem C15_set_members_exact (env : Env α) (s : State α) (addrs : List α) (x
   show x ∈ keys (setMembers env s addrs).1.peers ↔ _
   simp only [setMembers]
   rw [mem_keys_foldl_insert, keys_filter (fun k => (addrs.filter (fun a => !env.isSelf a)).contains k)]
-  simp only [List.mem_filter, List.contains_iff_mem, Bool.not_eq_true', Bool.not_eq_eq_eq_not, Bool.not_true,
-    decide_eq_true_eq, decide_eq_false_iff_not]
+  simp only [List.mem_filter, List.contains_iff_mem, Bool.not_eq_eq_eq_not, Bool.not_true]
   by_cases hx : x ∈ keys s.peers <;> simp [hx]
 
 /-- No change requested (the requested set minus self equals the current peer set) ⇒ `set_members` returns no
@@ -190,9 +189,13 @@ theorem C15_generation_advances (env : Env α) (s : State α) (addrs : List α)
     (changed : peerAddresses (step env s (.setMembers addrs)) ≠ peerAddresses s) :
     (step env s (.setMembers addrs)).generation = s.generation + 1 := by
   show (setMembers env s addrs).1.generation = _
-  by_cases hg : ((keys s.peers).filter (fun k => !(addrs.filter (fun a => !env.isSelf a)).contains k)).isEmpty = true
-  · by_cases hf : ((addrs.filter (fun a => !env.isSelf a)).filter (fun a => !(keys s.peers).contains a)).isEmpty = true
-    · exfalso; apply changed
+  cases hg : ((keys s.peers).filter (fun k => !(addrs.filter (fun a => !env.isSelf a)).contains k)).isEmpty with
+  | false => simp only [setMembers, hg]; rfl
+  | true =>
+    cases hf : ((addrs.filter (fun a => !env.isSelf a)).filter (fun a => !(keys s.peers).contains a)).isEmpty with
+    | false => simp only [setMembers, hg, hf]; rfl
+    | true =>
+      exfalso; apply changed
       show keys (setMembers env s addrs).1.peers = keys s.peers
       have hf' := List.isEmpty_iff.1 hf
       have hg' := List.isEmpty_iff.1 hg
@@ -202,8 +205,6 @@ theorem C15_generation_advances (env : Env α) (s : State α) (addrs : List α)
       rw [List.filter_eq_nil_iff] at hg'
       have := hg' a ha
       simpa using this
-    · simp only [setMembers]; simp [hf]
-  · simp only [setMembers]; simp [hg]
 
 /-- The same in terms of sets: whenever the requested set (minus self) differs from the current peer set, the
     generation strictly increases. Together with `C15_reresolve_preserves` this is a complete case split. -/
@@ -214,6 +215,20 @@ theorem C15_generation_advances_set (env : Env α) (s : State α) (addrs : List 
     intro e; apply differs; intro x
     rw [← e]; exact C15_set_members_exact env s addrs x
   rw [C15_generation_advances env s addrs this]; omega
+
+/-- The environment used by the correspondence runs (`strEnv`: addresses are `String`s under `String.<`) satisfies
+    the order assumptions; what remains assumed is only `is_self_address(self, self) = true` (rule 1 of the code). -/
+theorem C15_string_env_wf (selfAddr : String) (selfId : Nat) (table : List (String × Bool))
+    (hself : (strEnv selfAddr selfId table).isSelf selfAddr = true) : (strEnv selfAddr selfId table).Wf := by
+  refine ⟨?_, ?_, ?_, hself⟩
+  · intro a; simp [strEnv, String.lt_irrefl]
+  · intro a b c; simp only [strEnv, decide_eq_true_eq]; exact String.lt_trans
+  · intro a b; simp only [strEnv, decide_eq_true_eq]
+    by_cases h1 : a < b
+    · exact Or.inl h1
+    · by_cases h2 : b < a
+      · exact Or.inr (Or.inr h2)
+      · exact Or.inr (Or.inl (String.le_antisymm (String.not_lt.1 h2) (String.not_lt.1 h1)))
 
 /-! ### non-vacuity: a concrete environment (addresses = Nat codes; 1 and 9 are spellings of this node) -/
 
